@@ -15,7 +15,7 @@ def handle (ops old new texts : String) : String :=
   let text := fun (i : Nat) => tx.getD i "?"
   let o := ids old
   let n := ids new
-  let hs := hunks 3 xs o n
+  let hs := hunksFixed 3 xs o n
   let applied := if applyU 0 0 o hs == some n then "ok" else "rejected"
   Driver.hexOfString (render text hs) ++ " " ++ applied
 
